@@ -152,6 +152,23 @@ func (p *Prog) globalWriters() map[*ssa.Global][]ssa.Instruction {
 							}
 						}
 					}
+				case *ssa.IndexAddr:
+					// &g[i] of an array: a write only if something stores through it (or it escapes)
+					if refs := x.Referrers(); refs != nil {
+						for _, u := range *refs {
+							switch y := u.(type) {
+							case *ssa.UnOp, *ssa.DebugRef:
+							case *ssa.Store:
+								if y.Addr == ssa.Value(x) {
+									out[g] = append(out[g], u)
+								} else {
+									out[g] = append(out[g], u)
+								}
+							default:
+								out[g] = append(out[g], u)
+							}
+						}
+					}
 				case *ssa.DebugRef:
 				default:
 					out[g] = append(out[g], in)
@@ -261,9 +278,100 @@ func checkSharedState(r *Run, rc *RuleCtx, cl []*ssa.Function) {
 					if bare != nil {
 						where = "; accessed without a package-level mutex at " + p.pos(instrPos(bare))
 					}
-					rc.Violation(f, instrPos(in), "shared variable "+g.Name(), "the parser uses a package-level variable that is changed at run time ("+shortInstr(w)+" in "+fnName(w.Parent())+", "+p.pos(instrPos(w))+") and no single mutex is held at all of its accesses"+where+": concurrent callers can corrupt it or crash the process (a map written while read is a fatal error)")
+					rc.Violation(f, instrPos(in), "shared variable "+g.Name(), "this code uses a package-level variable that is changed at run time ("+shortInstr(w)+" in "+fnName(w.Parent())+", "+p.pos(instrPos(w))+") and no single mutex is held at all of its accesses"+where+": concurrent callers can corrupt it or crash the process (a map written while read is a fatal error)")
 				}
 			}
 		})
 	}
+}
+
+// fmtReachable: the String/Error/Format/GoString methods of module types whose values are handed to a
+// function of package fmt inside fns (fmt calls them through reflection, so no call edge shows them),
+// with the module functions they reach.
+func fmtReachable(p *Prog, fns []*ssa.Function) []*ssa.Function {
+	seen := map[*ssa.Function]bool{}
+	for _, f := range fns {
+		seen[f] = true
+	}
+	var out []*ssa.Function
+	var work []*ssa.Function
+	addMethods := func(t types.Type) {
+		for _, tt := range []types.Type{t, types.NewPointer(t)} {
+			ms := p.SSA.MethodSets.MethodSet(tt)
+			for _, name := range []string{"String", "Error", "Format", "GoString"} {
+				sel := ms.Lookup(nil, name)
+				if sel == nil {
+					if n, ok := t.(*types.Named); ok && n.Obj().Pkg() != nil {
+						sel = ms.Lookup(n.Obj().Pkg(), name)
+					}
+				}
+				if sel == nil {
+					continue
+				}
+				fn := p.SSA.MethodValue(sel)
+				if fn != nil && p.isLibFn(fn) && !seen[fn] {
+					seen[fn] = true
+					work = append(work, fn)
+				}
+			}
+		}
+	}
+	scan := func(f *ssa.Function) {
+		eachInstr(f, func(b *ssa.BasicBlock, i int, in ssa.Instruction) {
+			c, ok := in.(*ssa.Call)
+			if !ok {
+				return
+			}
+			sc := c.Call.StaticCallee()
+			if sc == nil || sc.Pkg == nil || sc.Pkg.Pkg.Path() != "fmt" {
+				return
+			}
+			var visit func(v ssa.Value, depth int)
+			visit = func(v ssa.Value, depth int) {
+				if depth > 4 {
+					return
+				}
+				switch x := v.(type) {
+				case *ssa.MakeInterface:
+					t := x.X.Type()
+					if pt, isP := t.(*types.Pointer); isP {
+						t = pt.Elem()
+					}
+					addMethods(t)
+				case *ssa.Slice:
+					if al, isA := x.X.(*ssa.Alloc); isA {
+						for _, u := range *al.Referrers() {
+							if ia, isIA := u.(*ssa.IndexAddr); isIA {
+								for _, w := range *ia.Referrers() {
+									if st, isS := w.(*ssa.Store); isS {
+										visit(st.Val, depth+1)
+									}
+								}
+							}
+						}
+					}
+				}
+			}
+			for _, a := range c.Call.Args {
+				visit(a, 0)
+			}
+		})
+	}
+	for _, f := range fns {
+		scan(f)
+	}
+	for len(work) > 0 {
+		f := work[len(work)-1]
+		work = work[:len(work)-1]
+		out = append(out, f)
+		scan(f)
+		for _, g := range p.CG().Closure([]*ssa.Function{f}, func(x *ssa.Function) bool { return p.isLibFn(x) }) {
+			if !seen[g] {
+				seen[g] = true
+				out = append(out, g)
+				scan(g)
+			}
+		}
+	}
+	return out
 }
